@@ -464,6 +464,10 @@ def c_rename(h):
             "C16.rename.guarantees_meaning_under_assumptions",
             z3.Implies(u.sat(Ar), u.sat(Gr) == z3.If(active, u.sat(G, holds2), u.sat(G))),
         )
+        # renaming is substitution, nothing else: the constraints are not simplified again (a second simplification can drop a
+        # guarantee the original keeps, or reject a contract whose guarantees contradict its assumptions - both seen on the
+        # pinned tree for an ABSENT source variable)
+        h.check("C16.rename.nothing_is_simplified_again", not [r for r in u.calls if r["op"] == "simplify"], "rename_variable called simplify")
         _fresh_contract_fields(h, u, res, [c])
     h.frame_ok(out, "C13.frame")
 
